@@ -15,7 +15,7 @@
     xml_layer_tree xml_tree_wellformed xml_batching_irrelevant
     xml_errors_are_parseerror_with_line xml_undefined_entity_position
     xml_html_entity_is_text xml_errors_are_parseerror xml_unknown_encoding_is_parseerror
-    xml_source_failure_propagates
+    xml_source_failure_propagates xml_api_total
     html_stream_is_forest html_text_is_plain xml_text_is_plain
     endtag_closes_to_innermost_match endtag_without_match_closes_all void_endtag_ignored
     xml_layer_tree_merged events_determine_tree
@@ -558,6 +558,41 @@ theorem xml_errors_are_parseerror (reads : List XmlRead) (close : List (Item Xml
     | codec l c => exact ⟨l, c, h.symm, .inr rfl⟩
     | exc n => simp [xmlTokenizerError] at htok
     | base n => simp [xmlTokenizerError] at htok
+
+/-- `XML(text)` = `Stream(list(XMLParser(…)))`: the list is built only when nothing was raised -/
+def xmlCall (reads : List XmlRead) (close : List (Item XmlCb)) : Except Raised Stream :=
+  match xmlParse reads close with
+  | (s, none) => .ok s
+  | (_, some r) => .error r
+
+/-- **Totality of the XML parser, as the API shows it.** Whatever Expat calls and however the calls are batched, if
+    the source can be read and the handlers are genshi's own: `XML(text)` either returns the events the handler calls
+    enqueue, in order, with adjacent text merged — or raises `ParseError` with a line and column. No third outcome. -/
+theorem xml_api_total (reads : List XmlRead) (close : List (Item XmlCb)) (hex : OnlyTokenizerErrors reads close) :
+    (∃ s, xmlCall reads close = .ok s ∧ noAdjText s = true ∧
+        s = coalesce ((xmlItems reads close).flatMap xItemEvents)) ∨
+    (∃ l c, xmlCall reads close = .error (.parseError l c)) := by
+  unfold xmlCall
+  cases hp : xmlParse reads close with
+  | mk s err =>
+    cases err with
+    | none =>
+      left
+      have h1 := (xml_errors_are_parseerror_with_line reads close).1
+      rw [hp] at h1
+      have hf : firstFailure (xmlItems reads close) = none := by
+        cases hh : firstFailure (xmlItems reads close) with
+        | none => rfl
+        | some e => rw [hh] at h1; simp at h1
+      have h2 := xml_events_are_callbacks reads close hf
+      rw [hp] at h2
+      have h3 := (xml_batching_irrelevant reads reads close close rfl).2.2
+      rw [hp] at h3
+      exact ⟨s, rfl, h3, congrArg Prod.fst h2⟩
+    | some r =>
+      right
+      obtain ⟨l, c, hr, _⟩ := xml_errors_are_parseerror reads close hex r (by rw [hp])
+      exact ⟨l, c, by rw [hr]⟩
 
 /-- repaired defect C07-xmlparser-unknown-encoding on the model: `<?xml version="1.0" encoding="uf-8"?>`
     in a byte source — the declaration is reported, then pyexpat lets the `LookupError` of the codec lookup
